@@ -685,6 +685,20 @@ pub fn run(o: &DriveOpts, out: &mut dyn Write, tid: usize) -> Value {
                 // (index, create?) : create the missing ones below g, release those at or above g
                 (0..13).filter_map(|i| if i < g && !bg[i] { Some((i, true)) } else if i >= g && bg[i] { Some((i, false)) } else { None }).collect()
             };
+            if twin_mode && twin_alive && round % 3 == 2 && bg.iter().filter(|b| **b).count() <= 11 {
+                // roll back to the checkpoint: two pairs are created on the original ONLY (it diverges: two group slots more
+                // than the copy has in use), then the original is overwritten with the copy - `g.clone_from(&checkpoint)`.
+                // From here on both are mirrored again and filled up to 14 groups: the slots of the two lost pairs must be free.
+                for j in 0..2usize {
+                    let (p_, q_) = ((off + 16 + 2 * j) % span, (off + 17 + 2 * j) % span);
+                    ok = ok
+                        && rec.call(&mut w, HCall { h: 0, call: Call::Add { v: p_ } })
+                        && rec.call(&mut w, HCall { h: 0, call: Call::Add { v: q_ } })
+                        && rec.call(&mut w, HCall { h: 0, call: Call::Bind { v1: p_, v2: q_, a: labels[j % nl].clone() } })
+                        && rec.call(&mut w, HCall { h: 0, call: Call::Put { v: q_, d: datas[(round + j) % datas.len()].clone() } });
+                }
+                ok = ok && rec.call(&mut w, HCall { h: 1, call: Call::Clone { dst: 0 } });
+            }
             if bg_first {
                 for (i, create) in adjust_bg(&bg) {
                     let (a, b) = (o.cap - 2 * (i + 1), o.cap - 2 * (i + 1) + 1);
@@ -833,7 +847,42 @@ pub fn run(o: &DriveOpts, out: &mut dyn Write, tid: usize) -> Value {
                 rec.reset(&w);
             }
             first = false;
-            let kind = rng.gen_range(0..14);
+            let kind = rng.gen_range(0..17);
+            if kind >= 14 {
+                // an id at or above the capacity handed to a COMPOSITE call: merge (left beyond the left graph; right beyond the
+                // right graph - which is smaller than the left one, so the id is a good one on the left) or slice
+                let mut seq: Vec<HCall> = vec![];
+                for v in [0usize, 1] {
+                    seq.push(HCall { h: 0, call: Call::Add { v } });
+                }
+                seq.push(HCall { h: 0, call: Call::Bind { v1: 0, v2: 1, a: labels[0].clone() } });
+                let small = (o.cap / 2).max(2);
+                seq.push(HCall { h: 1, call: Call::New { n: o.n, cap: small } });
+                seq.push(HCall { h: 1, call: Call::Add { v: 0 } });
+                seq.push(HCall { h: 1, call: Call::Add { v: 1 } });
+                seq.push(HCall { h: 1, call: Call::Bind { v1: 0, v2: 1, a: labels[1 % labels.len()].clone() } });
+                let bigl = [o.cap, o.cap + 1, usize::MAX][rng.gen_range(0..3)];
+                let bigr = [small, small + 1, o.cap, usize::MAX][rng.gen_range(0..4)];
+                seq.push(match kind {
+                    14 => HCall { h: 0, call: Call::Merge { src: 1, left: 0, right: bigr } },
+                    15 => HCall { h: 0, call: Call::Merge { src: 1, left: bigl, right: 0 } },
+                    _ => HCall { h: 0, call: Call::Slice { dst: 2, v: bigl, p: Pred::All } },
+                });
+                for c in seq {
+                    let _ = rec.call(&mut w, c);
+                }
+                for _ in 0..rng.gen_range(2..6) {
+                    let pres = w.g(0).keys().unwrap_or_default();
+                    let c = match rng.gen_range(0..4) {
+                        0 => Call::Add { v: rng.gen_range(0..8.min(o.cap)) },
+                        1 if !pres.is_empty() => Call::Data { v: *pres.choose(&mut rng).unwrap() },
+                        2 if !pres.is_empty() => Call::Put { v: *pres.choose(&mut rng).unwrap(), d: datas[6].clone() },
+                        _ => Call::Clone { dst: 2 },
+                    };
+                    let _ = rec.call(&mut w, HCall { h: 0, call: c });
+                }
+                continue;
+            }
             if kind >= 12 {
                 // a merge of a NON-TREE right graph (join() unifies vertices and vacates a slot): documented as "unpredictable",
                 // void for every lens, but memory safety is claimed for it too - the sanitizer watches what follows
